@@ -189,7 +189,8 @@ def gen_calls(rng, prog, cfg):
         fl = [dict(f) for f in FAULTS[eng]]
         rng.shuffle(fl)
         for f in fl:
-            calls.append({'solver': sv, 'display': rng.random() < 0.3, 'log': rng.random() < 0.2, 'fault': f})
+            calls.append({'solver': sv, 'display': rng.random() < 0.3, 'log': rng.random() < 0.2, 'fault': f,
+                          'soc': rng.random() < 0.25})
             if rng.random() < 0.25:
                 calls.append({'solver': sv, 'display': rng.random() < 0.3})
         if sv == 'grb' and rng.random() < 0.7:
@@ -205,6 +206,8 @@ def gen_calls(rng, prog, cfg):
             calls.append({'solver': sv, 'display': rng.random() < 0.5,
                           'fault': {'kind': 'clock_step', 'steps': [rng.choice([-3600.0, 86400.0, -2e9])]}})
         calls.append({'solver': sv, 'display': False})
+        if rng.random() < 0.5:
+            calls.append({'solver': sv, 'display': rng.random() < 0.3, 'soc': True, 'soc_healthy': True})
     return calls
 
 
@@ -354,7 +357,7 @@ def check_case(case, props):
             fault = call.get('fault')
             engine_fault = fault and fault['kind'] in ('status', 'raise', 'none_solver')
             sol_before = getattr(m, 'solution', None)
-            op = {'op': 'solve', 'm': 'm', 'solver': sv, 'display': call.get('display', False)}
+            op = {'op': 'soc_solve' if call.get('soc') else 'solve', 'm': 'm', 'solver': sv, 'display': call.get('display', False)}
             for k in ('log', 'params', 'fault'):
                 if k in call:
                     op[k] = call[k]
@@ -437,6 +440,20 @@ def check_case(case, props):
                 viol('optimal-not-readable', '%s returned optimal but optimal()=%s, readable variables %s of %s'
                      % (sv, opt, readable, prog['vars']), [eng])
                 break
+            if call.get('soc'):
+                # soc_solve works on an expanded program (extra columns); exp cones are approximated, so only programs
+                # without exp cones are comparable; the failure semantics above apply to it in full
+                stats['probes']['healthy_soc_solve'] = stats['probes'].get('healthy_soc_solve', 0) + 1
+                if cls != 'EXP' and best:
+                    o2 = list(best.values())[0]
+                    if abs(o2 - st['obj']) > max(tol * 10, 3e-4 if cls in ('MILP', 'MISOCP') else 0) * (1 + abs(o2)):
+                        viol('soc-solve-disagrees', '%s: soc_solve gives %.9g, solve gave %.9g on a program without exp cones'
+                             % (sv, st['obj'], o2), [eng])
+                        break
+                if after_failure:
+                    stats['recovery_checks'] += 1
+                    after_failure = False
+                continue
             # feasibility w.r.t. the snapshot of the compiled program
             stats['feasibility_checks'] += 1
             x = np.asarray(sol_after.x, float)
